@@ -8,6 +8,7 @@ import (
 	"os"
 	"path/filepath"
 	"strings"
+	"syscall"
 	"testing"
 )
 
@@ -101,5 +102,47 @@ func TestVerifMotionConfig(t *testing.T) {
 			ev["pairs"] = pairs
 		}
 		enc.Encode(ev)
+	}
+}
+
+// TestVerifDiskCheck: the storage layer's free-space gate (checkDiskSpace) against the file system's own numbers for
+// the directory: the space AVAILABLE to the daemon (statfs f_bavail) compared with min-disk-space-mb, asked just below,
+// at and just above the boundary, and - where the file system reserves blocks - inside the reserved band.
+func TestVerifDiskCheck(t *testing.T) {
+	outp := os.Getenv("VERIF_OUT")
+	if outp == "" {
+		t.Skip("driver only")
+	}
+	fo, _ := os.Create(outp)
+	defer fo.Close()
+	enc := json.NewEncoder(fo)
+	dirs := []string{t.TempDir(), "/tmp", "/var/tmp", "/dev/shm", "."}
+	for _, dir := range dirs {
+		var fs syscall.Statfs_t
+		if err := syscall.Statfs(dir, &fs); err != nil || fs.Blocks == 0 {
+			continue
+		}
+		avail := fs.Bavail * uint64(fs.Bsize) / 1024 / 1024
+		free := fs.Bfree * uint64(fs.Bsize) / 1024 / 1024
+		cands := []uint64{0, 1, avail / 2, avail + 100000}
+		if avail > 300 {
+			cands = append(cands, avail-200) // other processes move the numbers a little: stay 200 MB off the boundary
+		}
+		cands = append(cands, avail+200)
+		if free > avail+1000 {
+			cands = append(cands, (avail+free)/2, free-200) // inside the reserved band
+		}
+		for _, mb := range cands {
+			ok, err := checkDiskSpace(mb, dir)
+			var fs2 syscall.Statfs_t
+			syscall.Statfs(dir, &fs2)
+			avail2 := fs2.Bavail * uint64(fs2.Bsize) / 1024 / 1024
+			lo, hi := avail, avail2
+			if lo > hi {
+				lo, hi = hi, lo
+			}
+			enc.Encode(map[string]interface{}{"ev": "diskcheck", "dir": dir, "mb": mb, "avail_lo": lo, "avail_hi": hi, "free": free,
+				"ok": ok, "err": err != nil})
+		}
 	}
 }
